@@ -539,7 +539,9 @@ def battery():
                         ('val', None, Alt(Seq(Named('n', N)), Seq(Tok('['), Named('inner', Star(Call('item'))), Tok(']'))))],
                  comments=r'\(\*(?:.|\n)*?\*\)', eol_comments=r'#[^\n]*'),
                ['a:1', '(* c *) a : 1 # tail\n b:[ c:2 (* x *) d:[ ] ]', '# first\n\n  a:[b:[c:3]]\n# end',
-                ' (* multi\n line *)\n a:1\n (* z *) b:2 ', 'a:[ ]#x']))
+                ' (* multi\n line *)\n a:1\n (* z *) b:2 ', 'a:[ ]#x',
+                # both comment kinds in one run, in both orders, before a rule and before a token
+                '(* c *) # d\n a:1', '# d\n(* c *) a:1 (* e *)# f\n', 'a:[ (* x *) # y\n b:2 ]', 'a (* x *) # y\n : 1']))
     # 4 typed rules (object model), nested nodes in lists and optionals
     gs.append((G('P4', [('start', 'Prog', Seq(Named('stmts', Star(Call('stmt'))), Eof())),
                         ('stmt', 'Stmt', Seq(Named('name', W), Named('arg', Opt(Call('arg'))), Tok(';'))),
